@@ -178,3 +178,20 @@ def true_edges_of_cmp(body, op, lhs_pred, rhs_pred):
     for bb, te, fe in prims.cmp_guard_edges(body, op, lhs_pred, rhs_pred):
         e |= te
     return e
+
+
+def agg_flowing_to(body, locals_, variant, adt=None):
+    """blocks constructing `variant(..)` whose value is moved (possibly through temporaries) into one of locals_"""
+    tgt = set(locals_)
+    changed = True
+    while changed:
+        changed = False
+        for i, j, s in body.stmts():
+            pl, rv = s[0], s[1]
+            if len(pl) == 1 and pl[0] in tgt and rv.get('op') == 'use':
+                src = op_place(rv['a'][0])
+                if src and len(src) == 1 and src[0] not in tgt:
+                    tgt.add(src[0])
+                    changed = True
+    return [i for i, j, s in body.stmts() if s[1].get('op') == 'agg' and s[1].get('var') == variant
+            and (adt is None or s[1].get('adt') == adt) and len(s[0]) == 1 and s[0][0] in tgt]
